@@ -63,14 +63,20 @@ fn same_size(t: &mut Tape, spec: &mut ResizeSpec) -> Outcome {
         let tp = t.range(0, spec.sh - 1);
         (l, tp, t.range(1, spec.sw - l), t.range(1, spec.sh - tp))
     };
-    spec.crop = if (l, tp, w, h) == (0, 0, spec.sw, spec.sh) && t.bool() {
-        CropSpec::None
-    } else {
-        CropSpec::Box {
-            l: l as f64,
-            t: tp as f64,
-            w: w as f64,
-            h: h as f64,
+    let whole = (l, tp, w, h) == (0, 0, spec.sw, spec.sh);
+    spec.crop = match t.below(4) {
+        0 if whole => CropSpec::None,
+        // the same aspect ratio (here: the same size) must make fit_into_destination take the whole source
+        1 if whole => CropSpec::Fit([0.0, 0.5, 1.0, 0.3][t.below(4) as usize], [0.5, 0.0, 1.0, 0.7][t.below(4) as usize]),
+        k => {
+            // an origin of 0 may be spelled -0.0
+            let z = |v: u32, neg: bool| if v == 0 && neg { -0.0f64 } else { v as f64 };
+            CropSpec::Box {
+                l: z(l, k == 2),
+                t: z(tp, k == 2 || k == 3),
+                w: w as f64,
+                h: h as f64,
+            }
         }
     };
     spec.dw = w;
